@@ -169,12 +169,43 @@ def main(argv=None):
                         if new:
                             r['by'] = '%s %s' % (new[0]['rule'], new[0]['construct'])
                     sv.append(r)
+                # ... and every behaviour-preserving refactoring patch (refactors/<id>/patch.diff) applied to the current tree must stay silent
+                rp = []
+                rdir = os.path.join(core.VERIF, 'refactors')
+                todo = []
+                for rid in sorted(os.listdir(rdir)) if os.path.isdir(rdir) else []:
+                    pp = os.path.join(rdir, rid, 'patch.diff')
+                    if not os.path.exists(pp):
+                        continue
+                    ov = selftest.patch_overlay(a.repo, pp)
+                    if ov is None:
+                        rp.append(dict(name='refactoring patch %s' % rid, status='skipped', why='patch does not apply to the current tree'))
+                    else:
+                        todo.append((rid, ov))
+                if todo:
+                    import multiprocessing
+                    with multiprocessing.Pool(min(a.jobs, len(todo))) as pool:
+                        outs = pool.map(_run_variant, [(prop, a.repo, ov, 'quick') for _rid, ov in todo])
+                    for (rid, _ov), (st, payload) in zip(todo, outs):
+                        r = dict(name='refactoring patch %s' % rid)
+                        if st != 'ok':
+                            r['status'] = 'FALSE-ALARM'
+                            r['why'] = payload.strip().splitlines()[-1][:300]
+                        else:
+                            new = [d for k, d in payload if k not in base_keys]
+                            r['status'] = 'silent' if not new else 'FALSE-ALARM'
+                            if new:
+                                r['why'] = '%s %s: %s' % (new[0]['rule'], new[0]['construct'], new[0]['message'][:200])
+                        rp.append(r)
+                controls['refactor_patches_total'] = len(rp)
+                controls['refactor_patches_silent'] = len([r for r in rp if r['status'] == 'silent'])
+                rres = rres + rp
                 controls['seeds_total'] = len(sv)
                 controls['seeds_reported'] = len([r for r in sv if r['status'] in ('killed', 'fail-closed')])
                 rv = rv + sv
                 controls['fix_reverts_total'] = len(rv) - len(sv)
                 controls['fix_reverts_reported'] = len([r for r in rv if r['status'] in ('killed', 'fail-closed') and not r['name'].startswith('seeded regression')])
-                controls['detail'] += rv
+                controls['detail'] += rv + rp
                 mres = mres + rv
             for r in mres:
                 if r['status'] == 'MISSED':
